@@ -47,9 +47,10 @@ RULE = (
     "per (detector kind, threshold, window/delta) x 5-symbol family of the step alphabet {dim 1,2,3,8} x {NIS level 0, "
     "0.5b, b(1-1e-6), b(1+1e-6), 10b of the single-step bound b; B(1-1e-6), B(1+1e-6) of the detector's OWN bound B "
     "given the history so far} x {identity, full SPD covariance}: every history of length <= D breadth-first on the real "
-    "detector, every node of depth <= D12 / D50 extended by every constant tail to length 12 / 50, every leaf and the "
-    "shallow long tails replayed on a fresh factory-built detector; one evaluation of 'decision' = one detector step "
-    "of one history. non-trivial = the history up to that step contains a dimension change, or a step whose statistic "
+    "detector, every node of depth 0..D12 / 0..D50 extended by every constant tail to length 12 / 50 (a tail repeating "
+    "the node's last symbol is its parent's tail and is run once; tail steps that re-walk a tree node are evaluated "
+    "but not counted), every leaf and the shallow long tails replayed on a fresh factory-built detector; one "
+    "evaluation of 'decision' = one detector step of one history. non-trivial = the history up to that step contains a dimension change, or a step whose statistic "
     "is within 2e-6 (relative) of its bound, or (sliding) is longer than the window; distinct by construction "
     "(distinct histories of distinct detector configurations). states = distinct canonical detector states "
     "(all attributes: window contents / accumulated sums / metric) per work item, summed; transitions = real detector "
@@ -124,11 +125,22 @@ def _configs():
     return out
 
 
+def _config_in_family(tier, fi, kind, alpha, param):
+    """thorough: every configuration on every family.  quick: every configuration on the first family; on the other
+    families every window / delta with ONE threshold each (rotating), to stay inside the quick budget."""
+    if tier != "quick" or fi == 0:
+        return True
+    pi = WINDOWS.index(param) if kind == SLIDING else DELTAS.index(param) if kind == FADING else 0
+    return THRESHOLDS.index(alpha) == (pi + fi) % len(THRESHOLDS)
+
+
 def items(tier, seed):
     t = TIERS[tier]
     light, heavy = [], []
-    for fam in t["families"]:
+    for fi, fam in enumerate(t["families"]):
         for kind, alpha, param in _configs():
+            if not _config_in_family(tier, fi, kind, alpha, param):
+                continue
             it = ("explore", kind, alpha, param, fam, t["D"], t["D12"], t["D50"], t["DF"], seed)
             cheap = kind == STANDARD or (kind == SLIDING and param <= 2)
             (light if cheap else heavy).append(it)
@@ -148,6 +160,7 @@ def bounds(tier, seed):
     t = TIERS[tier]
     return {
         "detector_configs": len(_configs()),
+        "configs_per_family": {f: sum(_config_in_family(tier, fi, *c) for c in _configs()) for fi, f in enumerate(t["families"])},
         "thresholds": THRESHOLDS,
         "windows": WINDOWS,
         "deltas": DELTAS,
@@ -364,11 +377,11 @@ class _Path:
         )
 
 
-def _judge(res, ctx, sub, path, got, det_metric, metric_r, dof_r, bound_r, step_case):
+def _judge(res, ctx, sub, path, got, det_metric, metric_r, dof_r, bound_r, step_case, count=True):
     """Decision and metric of one real detector step against the reference."""
     near_now = abs(metric_r - bound_r) <= 2.0 * EPS * bound_r
     path.near = path.near or near_now
-    nontriv = path.dimchange or path.near or (ctx.kind == SLIDING and path.length > ctx.param)
+    nontriv = count and (path.dimchange or path.near or (ctx.kind == SLIDING and path.length > ctx.param))
     expected = metric_r >= bound_r
     if abs(metric_r - bound_r) <= EITHER * bound_r:
         res.either_way += 1
@@ -465,7 +478,8 @@ def _run_tail(res, ctx, det_node, rdet_node, path_node, tail_sym, length, record
         else:
             got = ctx.filters.call(res, variant, det, vec, tail_sym.mat, step_case, ctx.item)
         ctx.transitions += 1
-        _judge(res, ctx, "tail", path, got, det.metric, metric_r, dof_r, bound_r, step_case)
+        # steps n <= D of a tail re-walk a history that is also a tree node: evaluated, but not counted as a new case
+        _judge(res, ctx, "tail", path, got, det.metric, metric_r, dof_r, bound_r, step_case, count=n > ctx.depth)
         after = _canon(det)
         ctx.states.add(after)
         if rec is not None:
@@ -490,6 +504,9 @@ def _run_explore(res, item):
     frontier = [(det0, rdet0, _Path())]
     record = {}  # history (tuple of symbol indices) -> (vec, decision, metric, canonical state)
     long_tails = []  # (history indices, tail symbol, recorded steps) for the fresh long replays
+    for tail_sym in ctx.syms:  # constant histories s^k: tails from the empty history
+        long_tails.append(((), _run_tail(res, ctx, det0, rdet0, _Path(), tail_sym, 50, True)))
+        res.traces += 1
     for depth in range(1, ctx.depth + 1):
         nxt = []
         for det, rdet, path in frontier:
@@ -533,6 +550,8 @@ def _run_explore(res, item):
                     length = 50 if depth <= ctx.d50 else 12
                     lpath = _Path(tuple(ctx.syms[i].label for i in path2.hist), path2.last_dim, path2.dimchange, path2.near, path2.length)
                     for tail_sym in ctx.syms:
+                        if tail_sym is sym:
+                            continue  # h + s^k with h ending in s is the parent's tail with s (at least as long)
                         want_rec = depth <= ctx.dfresh
                         rec = _run_tail(res, ctx, det2, rdet2, lpath, tail_sym, length, want_rec)
                         res.traces += 1
